@@ -9,6 +9,13 @@ use falcon_rust::verif_hooks as fh;
 use rayon::prelude::*;
 use serde_json::{json, Value};
 
+/// the root of X^n+1 evaluated in each output slot, read off ntt(X) on a FRESH thread (so that nothing the
+/// library may remember from transforms of other lengths on this thread can colour the reference)
+pub(crate) fn slot_roots(n: usize) -> Vec<i64> {
+    let x = unit(n, 1 % n, 1);
+    crate::sched::on_fresh_thread(move || fh::felt_fft(&x)).unwrap_or_default().iter().map(|&v| v as i64).collect()
+}
+
 fn unit(n: usize, i: usize, a: u32) -> Vec<u32> {
     let mut v = vec![0u32; n];
     v[i] = a;
@@ -195,7 +202,7 @@ fn check_extremes(n: usize) -> (u64, Vec<Found>) {
         return (0, out);
     }
     // the root evaluated in each output slot, read off ntt(X)
-    let slot_root: Vec<i64> = fh::felt_fft(&unit(n, 1, 1)).iter().map(|&x| x as i64).collect();
+    let slot_root: Vec<i64> = slot_roots(n);
     let inv = zq::inverse_table();
     let ninv = inv[(n as i64 % Q) as usize];
     // powers of each slot root and of its inverse
@@ -296,7 +303,7 @@ fn check_sparsity(n: usize) -> (u64, Vec<Found>) {
     if n < 8 {
         return (0, out);
     }
-    let slot_root: Vec<i64> = fh::felt_fft(&unit(n, 1, 1)).iter().map(|&x| x as i64).collect();
+    let slot_root: Vec<i64> = slot_roots(n);
     let inv = zq::inverse_table();
     let psi = slot_root[0];
     let pow: Vec<Vec<i64>> = slot_root.iter().map(|&w| { let mut v = vec![1i64; n]; for j in 1..n { v[j] = v[j - 1] * w % Q; } v }).collect();
@@ -459,6 +466,68 @@ pub fn run(tier: Tier) {
     }
     psp.exhaustive = true;
     ctx.add_part(psp);
+    // length histories on one thread with inputs that share a prefix across lengths (a low-degree polynomial
+    // zero-padded to each length) and dense ones: a memo of recent transforms, a table remembered from another
+    // length or a scratch row must not leak into the next call
+    {
+        let hsizes: Vec<usize> = vec![2, 4, 8, 16, 64, 512, 1024];
+        let mut hists: Vec<Vec<usize>> = vec![];
+        for &a in &hsizes {
+            for &b in &hsizes {
+                for &c in &hsizes {
+                    hists.push(vec![a, b, c]);
+                }
+            }
+        }
+        // reference spectra per length and input kind, from the slot roots of that length
+        let refs: std::collections::BTreeMap<(usize, usize), (Vec<u32>, Vec<u32>)> = hsizes
+            .par_iter()
+            .flat_map(|&n| {
+                let slot_root: Vec<i64> = slot_roots(n);
+                (0..2usize)
+                    .map(|kind| {
+                        let a: Vec<u32> = if kind == 0 { (0..n).map(|i| [3u32, 1, 5, 12288][i % 4] * if i < 4 { 1 } else { 0 }).collect() } else { dense(n, 3) };
+                        let want: Vec<u32> = (0..n).map(|k| { let mut acc = 0i64; let mut p = 1i64; for j in 0..n { acc = (acc + a[j] as i64 * p) % Q; p = p * slot_root[k] % Q; } acc as u32 }).collect();
+                        ((n, kind), (a, want))
+                    })
+                    .collect::<Vec<_>>()
+            })
+            .collect();
+        let refs = std::sync::Arc::new(refs);
+        let res: Vec<(Vec<usize>, Result<Option<usize>, String>)> = hists
+            .par_iter()
+            .map(|h| {
+                let (h2, r2) = (h.clone(), refs.clone());
+                (h.clone(), crate::sched::on_fresh_thread(move || {
+                    // one pass per input kind (consecutive calls see the same prefix at different lengths), then mixed
+                    for kinds in [[0usize, 0, 0], [1, 1, 1], [0, 1, 0], [1, 0, 1]] {
+                        for (step, &n) in h2.iter().enumerate() {
+                            let (a, want) = &r2[&(n, kinds[step])];
+                            let f = fh::felt_fft(a);
+                            if &f != want || &fh::felt_ifft(&f) != a {
+                                return Some(step);
+                            }
+                        }
+                    }
+                    None
+                }))
+            })
+            .collect();
+        let mut part = Part::new("length_histories", "every sequence of three lengths over {2, 4, 8, 16, 64, 512, 1024} on one fresh thread; at each step ntt of (3 + X + 5X^2 - X^3 zero-padded to that length) and of a dense vector against the defining sums, and intt back: every step exact whatever was transformed before");
+        for (h, r) in res {
+            part.states += 1;
+            part.transitions += 4 * h.len() as u64;
+            part.validated += 2 * h.len() as u64;
+            match r {
+                Ok(None) => {}
+                Ok(Some(step)) => ctx.violation(format!("ntt:length-history:step{}", step + 1), format!("in the length history {:?} on one thread, step {} (n = {}): ntt / intt of a fixed input differs from the defining sum", h, step + 1, h[step]), json!({"kind":"ntt-history","history":h})),
+                Err(e) => ctx.violation("ntt:length-history:panic".to_string(), format!("panic in the length history {:?}: {}", h, e), json!({"kind":"ntt-history","history":h})),
+            }
+        }
+        part.exhaustive = true;
+        part.outcome("every step exact".to_string());
+        ctx.add_part(part);
+    }
     ctx.sample(json!({"n":8,"ntt(X)":fh::felt_fft(&unit(8,1,1)),"meaning":"the 8 roots of X^8+1 mod q in the transform's output order"}));
     ctx.sample(json!({"n":4,"i":3,"j":2,"intt(ntt(X^3).*ntt(X^2))":fh::felt_ifft(&fh::felt_hadamard_mul(&fh::felt_fft(&unit(4,3,1)), &fh::felt_fft(&unit(4,2,1)))),"expected":"-X = [0,12288,0,0]"}));
     ctx.assume("Z_q gates are exact (decided exhaustively by C12); the basis argument presumes butterflies without data-dependent branches - the intermediate_sparsity and extreme_values families probe that premise; given it, agreement on a basis (and on all basis pairs for the bilinear product) extends to all q^n (q^2n) inputs; the linearity premise is additionally exercised on two-term and dense vectors");
@@ -479,6 +548,7 @@ pub fn replay(case: &Value) -> Result<Option<String>, String> {
             let n = us("n").ok_or("n")?;
             Ok(check_extremes(n).1.into_iter().next().map(|f| f.what))
         }
+        "ntt-history" => Err("re-run ./vf check C11 (the length histories are enumerated deterministically)".into()),
         "sparsity" => {
             let n = us("n").ok_or("n")?;
             Ok(check_sparsity(n).1.into_iter().next().map(|f| f.what))
